@@ -6,6 +6,7 @@ from .. import monitors as M
 from .. import refmodel as R
 from .. import spec as S
 from . import common as C
+from . import extreme as X
 
 MONITORS = ("math", "route")
 LEVEL = "exploration"
@@ -23,6 +24,10 @@ ASSUMPTIONS = [
 
 
 def make_case(rng, tier):
+    if rng.random() < 0.03:
+        t, p = X.gen_flat(rng)
+        if t is not None:
+            return {"kind": "extreme_flat", "family": "extreme_flat", "spec": S.to_json(t), "points": [S.point_to_json(p)], "mode": "tree"}
     t, fam, vals = C.mixed_tree(rng, tier)
     names = sorted(S.variables(t))
     pts = [G.rand_point(rng, names, vals) for _ in range(3)]
@@ -39,7 +44,29 @@ def run_shard(ctx):
         ctx.run_case(make_case(ctx.rng, ctx.tier))
 
 
+def check_extreme(ctx, case):
+    """Flat n-ary sum / product of leaves at huge-but-finite coordinates: every node value is representable, so the
+    result must be the exact value (to 1e-12) - whatever partial sums or products an implementation forms."""
+    s = S.from_json(case["spec"])
+    for pj in case["points"]:
+        p = S.point_from_json(pj)
+        exact = X.exact_value(s, p)
+        if not X.in_range(exact):
+            continue
+        out = M.call(S.build(s).at, S.make_point(p))
+        ctx.evaluation()
+        ctx.count("extreme_flat_evaluations")
+        ctx.nontrivial(case["spec"], pj)
+        what = f"{S.show(s)} at {S.show_point(p)}"
+        if out.kind != "num":
+            ctx.violation("no_value_on_domain", f"{what}: every node value is representable (exact value {float(exact)!r}), library gave {out.brief()}")
+        elif not X.close(out.value, exact):
+            ctx.violation("outside_enclosure", f"{what}: got {out.value!r}, exact value {float(exact)!r}")
+
+
 def check_case(ctx, case):
+    if case.get("kind") == "extreme_flat":
+        return check_extreme(ctx, case)
     import smoothmath as sm
     s = S.from_json(case["spec"])
     mode = case.get("mode", "tree")
